@@ -2,7 +2,8 @@
 from . import common as C
 from .framework import Tie
 from . import sysgen
-from .sysprog import gen_program, gen_placement
+from .sysprog import gen_program, gen_placement, gen_paste_pair
+from .framework import Oracle
 
 PROFILES = {
     'general': {},
@@ -13,7 +14,7 @@ PROFILES = {
     'C06': {'w': {'label': 25, 'const': 8, 'include': 5, 'org': 4, 'memzone': 3, 'instr': 25, 'data': 12}, 'p_ref': 0.8, 'p_badref': 0.05},
     'C11': {'w': {'data': 25, 'string': 15, 'fill': 12, 'zerountil': 8, 'instr': 5}},
     'C12': {'w': {'instr': 50, 'label': 12}},
-    'C17': {'w': {'include': 10, 'label': 15, 'memzone': 4}, 'p_include_fault': 0.2},
+    'C17': {'w': {'label': 15, 'memzone': 4, 'mute': 3}, 'p_include': 1.0, 'p_fault': 0.25, 'p_ref': 0.6},
 }
 
 
@@ -88,3 +89,26 @@ def isa_tie(profile=None, n_quick=300, n_thorough=6000, name='isa'):
                impl=sysgen.impl_assemble, case_term=sysisa.isa_case_term, obs_term=sysgen.obs_term,
                nontrivial=lambda c: True,
                classify=lambda c: 'macros' if c['isa']['macros'] else 'instrs', shard=40, timeout=60)
+
+
+def _paste_check(pair):
+    """runs in a forked child: both variants through the real Assembler (each again in its own fork)"""
+    a = C.run_forked(sysgen.impl_assemble, pair['split'], 60)
+    b = C.run_forked(sysgen.impl_assemble, pair['pasted'], 60)
+    if a[0] != b[0]:
+        return f'split program: {a[0]} ({str(a[1])[:120]}), pasted program: {b[0]} ({str(b[1])[:120]})'
+    if a[0] == 'ok' and a[1]['image'] != b[1]['image']:
+        return 'split and pasted programs assemble to different images'
+    return None
+
+
+def paste_oracle(n_quick=120, n_thorough=2500):
+    def gen(rng, tier):
+        out = []
+        for _ in range(n_quick if tier == 'quick' else n_thorough):
+            p = gen_paste_pair(rng, tier)
+            if p:
+                out.append(p)
+        return out
+    return Oracle(name='paste', gen=gen, check=_paste_check, nontrivial=lambda c: True,
+                  classify=lambda c: 'files%d' % len(c['split']['files']), timeout=180)
